@@ -47,6 +47,7 @@ type CaseResult struct {
 	Inconclusive []string         `json:"inconclusive,omitempty"`
 	Notes        []string         `json:"notes,omitempty"`
 	WallMS       int64            `json:"wall_ms"`
+	AbortShard   bool             `json:"abort_shard,omitempty"`
 }
 
 // Ctx is handed to a check's Run function for one case.
@@ -129,6 +130,10 @@ func (c *Ctx) Violation(signature, detail string, data interface{}) {
 
 // Violations returns the number of violations recorded so far in this case.
 func (c *Ctx) Violations() int { return c.nviol }
+
+// AbortShard makes the child process stop after this case (used when goroutines of the case are stuck for good);
+// the remaining cases of the shard are reported as not run.
+func (c *Ctx) AbortShard() { c.res.AbortShard = true }
 
 // Inconclusives returns what was recorded as undecidable in this case.
 func (c *Ctx) Inconclusives() []string { return c.res.Inconclusive }
@@ -272,6 +277,12 @@ func ChildMain(id, tier string, seed int64, shard, of int, outPath string, mode 
 		w.Write(b)
 		w.WriteByte('\n')
 		w.Flush()
+		if res.AbortShard {
+			fmt.Fprintf(w, "{\"done\":true}\n")
+			w.Flush()
+			out.Close()
+			os.Exit(0)
+		}
 	}
 	fmt.Fprintf(w, "{\"done\":true}\n")
 	w.Flush()
